@@ -13,6 +13,7 @@ import (
 	"bufio"
 	"fmt"
 	"io"
+	"os"
 	"os/exec"
 	"strconv"
 	"strings"
@@ -86,7 +87,7 @@ func (s *solver) start() {
 	if s.kind == "cvc5" {
 		s.cmdline = []string{"cvc5", "--incremental", "--fp-exp", "--produce-models", "--lang=smt2", "--tlimit-per=" + strconv.Itoa(s.timeout)}
 	} else {
-		s.cmdline = []string{"z3", "-in"}
+		s.cmdline = []string{"z3-new", "-in"}
 	}
 	s.cmd = exec.Command(s.cmdline[0], s.cmdline[1:]...)
 	in, err := s.cmd.StdinPipe()
@@ -103,6 +104,10 @@ func (s *solver) start() {
 	}
 	s.in = in
 	s.out = bufio.NewReaderSize(out, 1<<16)
+	if d := os.Getenv("VERIF_SMT_LOG"); d != "" && s.log == nil {
+		f, _ := os.Create(fmt.Sprintf("%s/session-%d.smt2", d, os.Getpid()))
+		s.log = f
+	}
 	s.dead = false
 	s.resetSession()
 }
@@ -405,7 +410,7 @@ func fallbackCmds(primary string, timeoutMs int) [][]string {
 	z3n := []string{"z3-new", "-in", "-t:" + strconv.Itoa(timeoutMs)}
 	z3o := []string{"z3", "-in", "-t:" + strconv.Itoa(timeoutMs)}
 	if primary == "cvc5" {
-		return [][]string{z3o, z3n}
+		return [][]string{z3n, z3o}
 	}
-	return [][]string{cvc, z3n}
+	return [][]string{cvc, z3o}
 }
